@@ -504,7 +504,7 @@ func c07NewEnv(c *Ctx) *c07Env {
 		s.CreatedAtNow()
 		rec := httptest.NewRecorder()
 		req := httptest.NewRequest("GET", "http://"+c07Host+"/", nil)
-		if err := mint.P.sessionStore.Save(rec, req, &s); err != nil {
+		if err := verifSessionStore(mint.P).Save(rec, req, &s); err != nil {
 			c.Error("C07 fixture: cannot save crafted session %s: %v", cs.kind, err)
 			continue
 		}
